@@ -19,9 +19,20 @@ pub enum BadKind {
     InvalidMvd,
     HeaderTruncated,
     BadPtypeMarker,
+    /// standard: PLUSPTYPE header announcing Modified Quantization (Annex T): fails at the first macroblock
+    UnimplementedMq,
+    /// standard: MPPTYPE reference-picture-resampling bit: fails while parsing the header
+    UnimplementedRpr,
+    /// standard: PB-frame / B / EI / EP picture type: fails at the first coded macroblock
+    UnimplementedPictureType,
+    /// an intra picture of ANOTHER size than the current reference whose data ends between two
+    /// macroblocks: the rest would have to be predicted from a reference of another size (or from
+    /// none)
+    TruncatedIntraOtherSize,
 }
 
-pub const BAD_KINDS_SORENSON: [BadKind; 10] = [
+pub const BAD_KINDS_SORENSON: [BadKind; 11] = [
+    BadKind::TruncatedIntraOtherSize,
     BadKind::NoStartCode,
     BadKind::ReservedType,
     BadKind::ReservedSize,
@@ -33,7 +44,11 @@ pub const BAD_KINDS_SORENSON: [BadKind; 10] = [
     BadKind::InvalidMvd,
     BadKind::HeaderTruncated,
 ];
-pub const BAD_KINDS_STANDARD: [BadKind; 8] = [
+pub const BAD_KINDS_STANDARD: [BadKind; 12] = [
+    BadKind::UnimplementedMq,
+    BadKind::UnimplementedRpr,
+    BadKind::UnimplementedPictureType,
+    BadKind::TruncatedIntraOtherSize,
     BadKind::NoStartCode,
     BadKind::InvalidIntraDc,
     BadKind::TruncatedInBlock,
@@ -58,12 +73,18 @@ impl BadKind {
             BadKind::InvalidMvd => "bad: invalid MVD code",
             BadKind::HeaderTruncated => "bad: truncated in header",
             BadKind::BadPtypeMarker => "bad: PTYPE marker bits",
+            BadKind::UnimplementedMq => "bad: unimplemented mode (modified quantization)",
+            BadKind::UnimplementedRpr => "bad: unimplemented mode (reference picture resampling)",
+            BadKind::UnimplementedPictureType => "bad: unimplemented picture type (PB / B / EI / EP)",
+            BadKind::TruncatedIntraOtherSize => "bad: intra picture of another size cut between macroblocks",
         }
     }
     /// depth at which the decoder must fail
     pub fn depth(self) -> &'static str {
         match self {
-            BadKind::NoStartCode | BadKind::HeaderTruncated | BadKind::BadPtypeMarker => "header",
+            BadKind::NoStartCode | BadKind::HeaderTruncated | BadKind::BadPtypeMarker | BadKind::UnimplementedRpr => "header",
+            BadKind::TruncatedIntraOtherSize => "prediction",
+            BadKind::UnimplementedMq | BadKind::UnimplementedPictureType => "macroblock header",
             BadKind::ReservedType | BadKind::ReservedSize => "picture setup",
             BadKind::InvalidMcbpc | BadKind::InvalidMvd => "macroblock header",
             _ => "block data",
@@ -74,8 +95,127 @@ impl BadKind {
 /// Build a picture that must be rejected. `like` gives mode/size; `inter` selects a P picture
 /// (when a reference exists) or an I picture as the carrier; `good_mbs` valid macroblocks precede
 /// the failing one ("failing at every depth").
-pub fn bad_picture(g: &mut Gen, _cfg: &PicCfg, like: &Header, kind: BadKind, inter: bool, tr: u8) -> Vec<u8> {
-    let ptype = if inter { PicType::P } else { PicType::I };
+/// A size different from `size` that the same mode can signal.
+fn other_size(g: &mut Gen, mode: Mode, size: Size) -> Size {
+    for _ in 0..4 {
+        let s = match mode {
+            Mode::Sorenson => Size::Custom8(g.range(1, 80) as u8, g.range(1, 80) as u8),
+            Mode::Standard => *g.pick(&[Size::Sqcif, Size::Qcif, Size::StdCustom(32, 32), Size::StdCustom(48, 16), Size::StdCustom(20, 36)]),
+        };
+        if s.dims() != size.dims() {
+            return s;
+        }
+    }
+    match mode {
+        Mode::Sorenson => {
+            if size.dims() == Some((24, 40)) {
+                Size::Custom8(40, 24)
+            } else {
+                Size::Custom8(24, 40)
+            }
+        }
+        Mode::Standard => {
+            if size.dims() == Some((128, 96)) {
+                Size::Qcif
+            } else {
+                Size::Sqcif
+            }
+        }
+    }
+}
+
+/// Standard-mode PLUSPTYPE / PTYPE header (hdr.rs form) for a picture of `like`'s size.
+fn std_header_like(like: &Header, tr: u8, quant: u8) -> crate::hdr::StdHeader {
+    use crate::hdr::*;
+    let mut p = base_plus();
+    let (fmt, cp) = match like.size {
+        Size::Sqcif => (1, None),
+        Size::Qcif => (2, None),
+        Size::Cif => (3, None),
+        Size::Cif4 => (4, None),
+        Size::Cif16 => (5, None),
+        s => (6, s.dims()),
+    };
+    p.opp = Opp::from_mode_bits(fmt, false, 0);
+    if let Some((w, h)) = cp {
+        p.cpfmt = Cpfmt { par: 2, pwi: ((w / 4).max(1) - 1) as u16, marker: true, phi: (h / 4).max(1) as u16, epar: (1, 1) };
+    }
+    let mut h = base_header(Kind::Plus(p));
+    h.tr = tr;
+    h.quant = quant.clamp(1, 31);
+    h
+}
+
+pub fn bad_picture(g: &mut Gen, cfg: &PicCfg, like: &Header, kind: BadKind, inter: bool, tr: u8) -> Vec<u8> {
+    // carrier picture type: I, or (when a reference exists) P or, in Sorenson mode, disposable P
+    let ptype = if inter {
+        if like.mode == Mode::Sorenson && g.chance(1, 3) {
+            PicType::D
+        } else {
+            PicType::P
+        }
+    } else {
+        PicType::I
+    };
+    match kind {
+        BadKind::UnimplementedMq | BadKind::UnimplementedRpr | BadKind::UnimplementedPictureType => {
+            use crate::hdr::*;
+            let mut h = std_header_like(like, tr, gen_quant(g));
+            let mut mb_inter = inter;
+            if let Kind::Plus(p) = &mut h.kind {
+                p.ptype_code = if inter { 1 } else { 0 };
+                match kind {
+                    BadKind::UnimplementedMq => p.opp.mq = true,
+                    BadKind::UnimplementedRpr => p.rpr = true,
+                    _ => {
+                        // improved PB, B, EI, EP: all use the inter-picture macroblock syntax (COD bit)
+                        p.ptype_code = *g.pick(&[2u8, 3, 4, 5]);
+                        mb_inter = true;
+                    }
+                }
+            }
+            if kind == BadKind::UnimplementedPictureType && g.chance(1, 3) {
+                // baseline PTYPE with the PB-frames bit
+                let mut b = base_baseline();
+                b.fmt = match like.size {
+                    Size::Sqcif => 1,
+                    Size::Qcif => 2,
+                    Size::Cif => 3,
+                    Size::Cif4 => 4,
+                    Size::Cif16 => 5,
+                    _ => 2,
+                };
+                b.inter = true;
+                b.pb = true;
+                h.kind = Kind::Baseline(b);
+                mb_inter = true;
+            }
+            let mut w = BitWriter::new();
+            h.write(false, &Inherited::default(), &mut w);
+            // the first macroblock is coded (a not-coded one would be accepted by any inter syntax)
+            let mbh = Header::standard(if mb_inter { PicType::P } else { PicType::I }, like.size, h.quant);
+            let n = g.range(1, 4);
+            for _ in 0..n {
+                let mb = gen_intra_mb(g, &mbh, false, false);
+                encode_mb(&mb, &mbh, &mut w);
+            }
+            return w.to_bytes();
+        }
+        BadKind::TruncatedIntraOtherSize => {
+            let size = other_size(g, like.mode, like.size);
+            let mut pic = gen_intra_pic_with(g, cfg, like.mode, like.version, size);
+            pic.hdr.tr = tr;
+            let total = pic.mbs.len();
+            // keep m < total complete macroblocks; the data ends right there
+            let m = g.range(0, total as i64 - 1) as usize;
+            pic.mbs.truncate(m);
+            for mb in pic.mbs.iter_mut() {
+                mb.stuffing = 0;
+            }
+            return encode_pic(&pic);
+        }
+        _ => {}
+    }
     let mut hdr = gen_header(g, like.mode, like.version, like.size, ptype);
     hdr.tr = tr;
     let total = hdr.mb_dims().map(|(a, b)| a * b).unwrap_or(1).max(1);
